@@ -103,10 +103,15 @@ Definition oseg_of (n : nat) (f : segfile) : oseg :=
   OSeg f.(f_num) f.(f_sdts) f.(f_sntp) (match f.(f_closed) with Some d => duration_field d | None => -1 end)
        (map (fun p => (p.(o_seq), trk_view n p)) f.(f_parts)).
 Definition closes (l : list sop) : list Z := flat_map (fun o => match o with SClose _ d => [d] | _ => [] end) l.
+(* the file name is the start time (to the microsecond; the generated NTPs are whole milliseconds): a later file
+   with the same start time truncates the earlier one (os.Create), so reading the created paths back in creation order
+   shows, for each of them, the LAST file with that start time *)
+Definition on_disk (fs : list segfile) : list segfile :=
+  map (fun f => last (filter (fun g => g.(f_sntp) =? f.(f_sntp)) fs) f) fs.
 Definition model_obs (gated : bool) (s : stream) : obs :=
   let c := cfg_of s in
   let x := if gated then run c (evs_of s) else run_raw c (evs_of s) in
-  MkObs x.(x_outs) (map (oseg_of (length c.(c_tracks))) (files_of x.(x_log))) (closes x.(x_log)).
+  MkObs x.(x_outs) (map (oseg_of (length c.(c_tracks))) (on_disk (files_of x.(x_log)))) (closes x.(x_log)).
 
 Fixpoint list_eqb {A B} (f : A -> B -> bool) (a : list A) (b : list B) : bool :=
   match a, b with
